@@ -1086,6 +1086,80 @@ class World:
         return self._record(None, "finalize", {"issuer": iss, "params": dict(params), "token_body": model_body,
                                                "tok": token_tok, "userinfo": userinfo, "now": self.clock.now}, out, before)
 
+    # -- look-ups and other calls that take a state (C09: a value presented AS a state that is not one)
+    PROBE_APIS = ("state2issuer", "client_from_session_key", "session", "routed_session", "has_active_authentication",
+                  "routed_has_active_authentication", "get_valid_access_token", "routed_get_valid_access_token",
+                  "logout", "routed_logout", "clear_session", "routed_clear_session")
+
+    def probe(self, api, key, iss=None):
+        """A call that takes a state and makes no request: RPHandler.state2issuer / get_client_from_session_key /
+        get_session_information / has_active_authentication / get_valid_access_token / logout / clear_session and
+        the same on the client of iss.  Model: state2issuer -> PIssuer, get_session_information on a client ->
+        PSession; every other one is replayed as PSync (the model continues from the observed stores)."""
+        before = self.snapshot()
+        c = self.clients.get(iss)
+        coq = None
+        try:
+            if api == "state2issuer":
+                v = self.rph.state2issuer(key)
+                out = ("ok", {} if v is None else {"iss": v})
+                coq = "(inr (PIssuer %s))" % coq_str(key)
+            elif api == "client_from_session_key":
+                out = ("ok", {"iss": self.rph.get_client_from_session_key(key).get_context().issuer})
+            elif api == "session":
+                out = ("ok", self._canon(copy.deepcopy(dict(c.get_session_information(key)))))
+                coq = "(inr (PSession %s %s))" % (coq_str(iss), coq_str(key))
+            elif api == "routed_session":
+                out = ("ok", self._canon(copy.deepcopy(dict(self.rph.get_session_information(key)))))
+            elif api.endswith("has_active_authentication"):
+                out = ("ok", {"active": bool((self.rph if api.startswith("routed") else c).has_active_authentication(key))})
+            elif api.endswith("get_valid_access_token"):
+                r = (self.rph if api.startswith("routed") else c).get_valid_access_token(key)
+                out = ("ok", {"access_token": r[0], "expires_at": r[1]})
+            elif api.endswith("logout"):
+                r = (self.rph if api.startswith("routed") else c).logout(key)
+                req = r["request"].to_dict()
+                out = ("ok", {"state": req.get("state"), "id_token_hint": self._canon(req.get("id_token_hint"))})
+            elif api.endswith("clear_session"):
+                (self.rph if api.startswith("routed") else c).clear_session(key)
+                out = ("ok", {})
+            else:
+                raise ValueError(api)
+        except Exception as e:      # noqa: BLE001
+            out = ("err", exc_name(e))
+            if api == "session":
+                coq = "(inr (PSession %s %s))" % (coq_str(iss), coq_str(key))
+        return self._record(coq, "probe", {"api": api, "issuer": iss, "state": key}, out, before)
+
+    def logout(self, iss, st, routed=False):
+        """client.logout(st) / rph.logout(st): the end-session request for the session st; its `state` is drawn by the
+        client and bound to st in the key map (EndSession.add_state).  Replayed by the model as PSync."""
+        before = self.snapshot()
+        try:
+            r = self.rph.logout(st) if routed else self.clients[iss].logout(st)
+            out = ("ok", {"state": r["request"].to_dict().get("state")})
+        except Exception as e:      # noqa: BLE001
+            out = ("err", exc_name(e))
+        return self._record(None, "logout", {"issuer": iss, "state": st, "routed": routed}, out, before)
+
+    def coq_ptrace(self):
+        """the trace as a ptrace_case (Model/RpState.v): operations inl, look-ups inr (PIssuer / PSession), every
+        call the model has no step for inr PSync"""
+        cfgs = coq_list(["(%s, %s)" % (coq_str(i), coq_cfg(c)) for i, c in self.cfgs], "(pystr * rp_cfg)")
+        rows = []
+        for op, out, snap in self.steps:
+            if op is None:
+                rows.append("(inr PSync, (Ok [], %s))" % self.coq_snapshot(snap))
+            else:
+                rows.append("(%s, (%s, %s))" % (op if op.startswith("(inr ") else "(inl %s)" % op,
+                                                coq_res_dict(out) if out[0] == "ok" else coq_exc(out[1]),
+                                                self.coq_snapshot(snap)))
+        return "(%s, %s, %s)" % (cfgs, coq_hash_table(sorted(self.hashed)), coq_list(rows))
+
+    def modellable_p(self):
+        return all((op is None or self.modellable_out(o)) and all(modellable(db) for _, db, _ in snap)
+                   for op, o, snap in self.steps)
+
     # -- the case term
     def coq_trace(self):
         cfgs = coq_list(["(%s, %s)" % (coq_str(i), coq_cfg(c)) for i, c in self.cfgs], "(pystr * rp_cfg)")
@@ -1100,6 +1174,7 @@ class World:
 
 
 TRACE_TYPE = "trace_case"
+PTRACE_TYPE = "ptrace_case"
 TRACE_IMPORTS = ["Lib.Base", "Lib.PyStr", "Lib.RpTy", "Gen.RpTables", "Model.IdToken", "Model.RpState"]
 
 
@@ -1114,7 +1189,7 @@ def make_world(clock, issuers=(ISS,), rph=False, **kw):
         confs = {}
         for iss in issuers:
             cf = client_config(iss, CLIENT_ID, kw.get("sigalg") if kw.get("reg", "static") == "static" else None,
-                               False, 0, kw.get("allow_missing_kid", False))
+                               False, 0, kw.get("allow_missing_kid", False), extra=copy.deepcopy(kw.get("extra")))
             confs[iss] = cf
         kj = KeyJar()
         load_issuer_keys(kj, tuple(ISSUER_KEYS))
